@@ -6,6 +6,7 @@
 #include <cstdio>
 #include <cstdlib>
 #include <cstring>
+#include <sstream>
 #include <string>
 #include <vector>
 
@@ -53,6 +54,10 @@ template<auto& P> static void run_pattern(const char* name, const std::vector<st
         bool m2 = r.match(string_view_buffer(std::string_view(block, in.size())));
         std::free(block);
         bool m3 = r.match(string_buffer(std::string(in)));
+        { g_f = Fault{}; std::ostringstream vs; bool mv = r.match(match_options{}.set_verbose(), checked_buffer(in.data(), in.size()), vs);
+          ++g_checks; if (g_f.deref_end || g_f.deref_out || g_f.formed_out) fail(name, in, "verbose match, user buffer: reads outside [begin,end)"); else if (mv != m1) fail(name, in, "verbose match differs");
+          char* vb = static_cast<char*>(std::malloc(in.size() ? in.size() : 1)); std::memcpy(vb, in.data(), in.size()); std::ostringstream vs2; bool mv2 = r.match(match_options{}.set_verbose(), string_view_buffer(std::string_view(vb, in.size())), vs2); std::free(vb);
+          ++g_checks; if (mv2 != m1) fail(name, in, "verbose match (string_view) differs"); }
         ++g_checks; if (m1 != m2 || m1 != m3) fail(name, in, "buffer kinds disagree");
         if (m1) ++g_match;
     }
